@@ -1000,7 +1000,7 @@ func writeChangeSwitchCase(w *formatting.IndentedWriter, changes map[string]dsl.
 			continue
 		}
 
-		fmt.Fprintf(w, "case Version::%s: {\n", versionLabel)
+		fmt.Fprintf(w, "case Version::%s: {\n", common.VersionIdentifierName(versionLabel))
 		w.Indented(func() {
 			defer func() {
 				w.WriteStringln("break;")
